@@ -102,6 +102,8 @@ class Interp:
         raise Unsupported(f"mro of {cls!r}")
 
     def is_subclass(self, cls, parent):
+        cls = self.norm_cls(cls)
+        parent = self.norm_cls(parent)
         if isinstance(parent, tuple):
             return any(self.is_subclass(cls, p) for p in parent)
         for c in self.mro(cls):
@@ -397,7 +399,15 @@ class Interp:
             return hook(self, v)
         raise Unsupported(f"type of {v!r}")
 
+    TYPE_BUILTINS = {"int", "str", "bool", "float", "list", "tuple", "set", "dict", "type", "object", "frozenset", "bytes", "bytearray"}
+
+    def norm_cls(self, c):
+        if isinstance(c, Builtin) and c.name in self.TYPE_BUILTINS:
+            return self.ext(c.name)
+        return c
+
     def isinstance(self, v, cls):
+        cls = self.norm_cls(cls)
         if isinstance(cls, tuple):
             r = False
             for c in cls:
@@ -443,6 +453,8 @@ class Interp:
     # ------------------------------------------------------------------ comparison / arithmetic
     def same(self, a, b):
         """`a is b`"""
+        a = self.norm_cls(a)
+        b = self.norm_cls(b)
         if isinstance(a, (Obj, Opaque, PyList, PyDict, PySet, GenObj, FuncVal, ClassInfo, SymStream)) or \
            isinstance(b, (Obj, Opaque, PyList, PyDict, PySet, GenObj, FuncVal, ClassInfo, SymStream)):
             return a is b
